@@ -418,19 +418,20 @@ type natResult struct {
 	Rep      report
 }
 
-// hangCPU: a native program (they all finish within milliseconds of CPU time) that was killed at the time limit is
-// judged to hang only if it consumed this much CPU time, i.e. it was spinning and not merely starved by other load.
-const hangCPU = 2 * time.Second
-
-// runNative runs program k of the combined binary; a run that exceeds 15 s without having burnt hangCPU is repeated
-// once with two minutes (the machine is shared); no verdict is drawn from the wall clock alone.
+// A native program of the space needs milliseconds of CPU time. One that is still running at the time limit is judged
+// to hang only if it was spinning, i.e. it consumed most of that time as CPU time; a run that was merely starved by
+// other load on the machine (little CPU time consumed) is repeated once with a longer limit and otherwise left
+// unjudged. No verdict is drawn from the wall clock alone.
 func runNative(bin string, k int) (res natResult) {
-	res = runNativeT(bin, k, 15*time.Second)
-	if res.Status == "run-timeout" && res.CPU < hangCPU {
-		res = runNativeT(bin, k, 120*time.Second)
+	res = runNativeT(bin, k, 10*time.Second)
+	if res.Status == "run-timeout" && res.CPU >= 8*time.Second {
+		return res
 	}
-	if res.Status == "run-timeout" && res.CPU < hangCPU {
-		res.Status = "run-unjudged" // starved or blocked, not spinning: no verdict from the wall clock
+	if res.Status == "run-timeout" {
+		res = runNativeT(bin, k, 60*time.Second)
+		if res.Status == "run-timeout" && res.CPU < 20*time.Second {
+			res.Status = "run-unjudged" // starved or blocked, not spinning
+		}
 	}
 	return res
 }
@@ -763,7 +764,7 @@ func checkItem(r *engine.R, rc *rec) {
 		return
 	}
 	if nat.Status == "run-timeout" {
-		r.Violation("native binary hangs: "+strings.TrimSuffix(strings.TrimSuffix(it.Sig, " ctx=meth"), " ctx=top"), fmt.Sprintf("%s\n--- VM finished (failed=%v) with stdout %q; the native binary was still running at the time limit after burning more than 2 s of CPU time (it needs milliseconds)", src, vmr.Failed, vmr.Stdout), src)
+		r.Violation("native binary hangs: "+hangSigClass(it.Sig), fmt.Sprintf("%s\n--- VM finished (failed=%v) with stdout %q; the native binary was still spinning at the time limit (8 s of CPU time within 10 s, or 20 s within 60 s; it needs milliseconds)", src, vmr.Failed, vmr.Stdout), src)
 		r.Outcome("violation: native hang")
 		return
 	}
@@ -913,6 +914,14 @@ func lineSigClass(sig string) string {
 		return "error raised directly in the frame"
 	}
 	return "error raised inside a callee of the frame"
+}
+
+var cfInnerRe = regexp.MustCompile(`^control-flow .*\b(inner=\S+).*$`)
+
+// hangSigClass: which loops surround the jump is incidental to a hang (and whether a given spinning program can be
+// judged depends on the load of the machine): control-flow items are classed by their innermost construct only.
+func hangSigClass(sig string) string {
+	return cfInnerRe.ReplaceAllString(sig, "control-flow $1")
 }
 
 var backquoteRe = regexp.MustCompile("`[^`]*`")
